@@ -113,9 +113,16 @@ def make(seed: int, index: int, tier: str = 'quick', mode: str = 'random') -> di
             sizes[sizes.index(max(sizes))] -= 1
         if max(sizes) < 3:
             sizes[0] = 3
+    if mode == 'hugeid':
+        sizes = (sizes + [1, 2, 1])[:max(3, min(len(sizes), 7))]
     ni = len(sizes)
     n = sum(sizes)
     ids, style = _ids(r, ni)
+    if mode == 'hugeid':
+        # integer ids of 16 digits whose float64 images coincide pairwise (2^53 and 2^53+1): individuals 0 and 2
+        base = 2 ** 53 + 4 * r.randint(0, 1000)
+        ids = [base, base + 40 + 2 * r.randint(0, 9), base + 1] + [base + 100 + 8 * k for k in range(ni - 3)]
+        style = 'huge_int'
     blocks = []
     k = 0
     for t in sizes:
@@ -135,7 +142,7 @@ def make(seed: int, index: int, tier: str = 'quick', mode: str = 'random') -> di
         # a parameter in the per-observation value (all parameter values are quantified)
         b = r.choice(list(sp.betas))
         inner = ['mul', inner, ['exp', ['mul', ['beta', b], ['var', r.choice(sp.real)]]]]
-    mc = mode == 'random' and r.random() < 0.5 or mode == 'mc'
+    mc = mode in ('random', 'hugeid') and r.random() < 0.5 or mode == 'mc'
     ndraws = 0
     draws = {}
     if mc:
@@ -176,6 +183,17 @@ def make(seed: int, index: int, tier: str = 'quick', mode: str = 'random') -> di
             pa = [p for p in pres_a if p in big]
             it = iter(pa[::-1])
             pres_b = [next(it) if p in big else p for p in pres_b]
+    if mode == 'hugeid':
+        # A: blocks in the order 0,1,2,... (the two colliding ids are not neighbours); B: 0,2,1,... (neighbours)
+        def _blk(order):
+            out = []
+            for j in order:
+                b = list(blocks[j])
+                r.shuffle(b)
+                out += b
+            return out
+        pres_a = _blk(list(range(ni)))
+        pres_b = _blk([0, 2, 1] + list(range(3, ni)))
     # index labels of the frame handed to Database
     index_style = r.choice(['range', 'range', 'shuffled', 'gaps'])
     if index_style == 'range':
